@@ -70,7 +70,7 @@ pub fn generate(prop: &str, rng: &mut Rng, tier: Tier) -> Scenario {
     // C29 gets them too (run by one uninterrupted transact): the reserved receipt slots are where
     // "appending a panic receipt cannot fail" style assumptions live.
     let flood_run = (prop == "C28" && g.chance(1, if tier == Tier::Thorough { 200 } else { 1200 }))
-        || (prop == "C29" && g.chance(1, if tier == Tier::Thorough { 800 } else { 1500 }));
+        || (prop == "C29" && g.chance(1, 600));
     if flood_run {
         mix.log = 0;
         mix.transfer = 0;
